@@ -25,9 +25,21 @@ SortedById(S) ==
 \* all ops of all threads, flattened
 Ops(ev) == LET RECURSIVE Fl(_) Fl(t) == IF t > Len(ev.threads) THEN <<>> ELSE ev.threads[t] \o Fl(t + 1) IN Fl(1)
 
-Check(ev) ==
+\* ev.frame > 0: a later frame of the same world; prev = the alive set this monitor
+\* expected after the previous frame's maintain (the harness' own observation of
+\* the initial aliveness must agree with it)
+WantAlive(ev, prev) ==
   LET ops == Ops(ev)
-      initLive == {<<ev.init[k][1], ev.init[k][2]>> : k \in {j \in 1..Len(ev.init) : ev.init[j][3]}}
+      initLive == IF ev.frame = 0 THEN {<<ev.init[k][1], ev.init[k][2]>> : k \in {j \in 1..Len(ev.init) : ev.init[j][3]}} ELSE prev
+      cr == SelectSeq(ops, LAMBDA o : o.o = "create")
+      de == SelectSeq(ops, LAMBDA o : o.o = "delete")
+      liveH == initLive \cup {cr[k].h : k \in 1..Len(cr)}
+  IN liveH \ {de[k].h : k \in {j \in 1..Len(de) : de[j].h \in liveH}}
+
+Check(ev, prev) ==
+  LET ops == Ops(ev)
+      obsLive == {<<ev.init[k][1], ev.init[k][2]>> : k \in {j \in 1..Len(ev.init) : ev.init[j][3]}}
+      initLive == IF ev.frame = 0 THEN obsLive ELSE prev
       initAll  == {<<ev.init[k][1], ev.init[k][2]>> : k \in 1..Len(ev.init)}
       cr == SelectSeq(ops, LAMBDA o : o.o = "create")
       created == {cr[k].h : k \in 1..Len(cr)}
@@ -39,7 +51,9 @@ Check(ev) ==
       lz == SelectSeq(ops, LAMBDA o : o.o = "lazy")
       queued == [k \in 1..Len(lz) |-> lz[k].tag]
       pn == SelectSeq(ops, LAMBDA o : o.o = "panic")
-  IN IF ev.hang THEN {F("C10", "an operation did not complete (hang)", ev.tid)}
+  IN IF ev.frame > 0 /\ obsLive # (prev \cap {<<ev.init[k][1], ev.init[k][2]>> : k \in 1..Len(ev.init)})
+     THEN {F("C10", "alive set at the start of a frame differs from the one expected after the previous maintain (observed, expected)", <<obsLive, prev>>)}
+     ELSE IF ev.hang THEN {F("C10", "an operation did not complete (hang)", ev.tid)}
      ELSE IF Len(pn) > 0 THEN {F("C10", "panic in a worker thread", pn[1].msg)} ELSE
        (IF Cardinality(created) # Len(cr) \/ Cardinality({h[1] : h \in created}) # Len(cr)
         THEN {F("C10", "created handles are not pairwise distinct", [k \in 1..Len(cr) |-> cr[k].h])} ELSE {})
